@@ -266,4 +266,13 @@ def match_known(known, prop, v):
 
 
 if __name__ == '__main__':
-    sys.exit(main())
+    try:
+        rc = main()
+    except SystemExit:
+        raise
+    except BaseException as e:      # an internal error of the machinery is never an alarm: undecided (exit 2)
+        import traceback
+        traceback.print_exc()
+        print(f"UNDECIDED internal error of the checker: {type(e).__name__}: {e}")
+        rc = 2
+    sys.exit(rc)
